@@ -35,6 +35,17 @@ def runAcov (ws : List String) : Option String := do
   | na :: ny :: nu :: ne :: nw :: k :: tol :: f :: rest =>
     let na ← na.toNat?; let ny ← ny.toNat?; let nu ← nu.toNat?; let ne ← ne.toNat?; let nw ← nw.toNat?
     let k ← k.toNat?; let tol ← QMat.parseRat? tol
+    -- `seq:t*3/2;m*2;a*1/2` = a history of rescale_stds calls (t transition, m measurement, a all), applied call by call
+    let calls? : Option (List (StdKind × Rat)) := if f.startsWith "seq:" then
+        ((f.drop 4).toString.splitOn ";").mapM (fun w => match w.splitOn "*" with
+          | [kd, x] => do
+            let x ← QMat.parseRat? x
+            let kd ← (if kd = "t" then some StdKind.transition else if kd = "m" then some StdKind.measurement
+              else if kd = "a" then some StdKind.all else none)
+            pure (kd, x)
+          | _ => none)
+      else none
+    let f := if f.startsWith "seq:" then "1" else f
     -- `f` = one factor for all stds, or `fu,fw` = cumulative factors of a sequence of rescale_stds(kind=…) calls
     let (fu, fw) ← (match f.splitOn "," with
       | [a] => (QMat.parseRat? a).map (fun a => (a, a))
@@ -49,11 +60,19 @@ def runAcov (ws : List String) : Option String := do
     let (dw, rest) ← takeRats nw rest
     match rest with
     | nsel :: rest =>
-      let nsel ← nsel.toNat?
-      let sel ← rest.mapM String.toNat?
-      if sel.length ≠ nsel then none else
+      -- either `nsel i…` (positions) or `shifts n s…` (the time shifts of the joint token vector: the model selects)
+      let sel ← (if nsel = "shifts" then
+          (match rest with
+           | _ :: sh => (sh.mapM String.toInt?).map zeroShiftSel
+           | [] => none)
+        else do
+          let nsel ← nsel.toNat?
+          let sel ← rest.mapM String.toNat?
+          if sel.length ≠ nsel then none else pure sel)
       let s0 : Sol := ⟨na, ny, nu, Ta, Pa, Za, Ua, H, QMat.diag du, QMat.diag dw, tol⟩
-      let s := if fu = 1 ∧ fw = 1 then s0 else if fu = fw then rescale s0 fu else rescaleKinds s0 fu fw
+      let s := match calls? with
+        | some calls => runStd s0 calls
+        | none => if fu = 1 ∧ fw = 1 then s0 else if fu = fw then rescale s0 fu else rescaleKinds s0 fu fw
       match acov s sel k with
       | none => pure "err:singular"
       | some gs =>
